@@ -68,7 +68,7 @@ KIND_MIXES = [
 def _spec(draw):
     kinds = draw(st.sampled_from(KIND_MIXES))
     return draw(engines.specs(max_algs=6, max_pkgs=3, kinds=kinds,
-                              events=True))
+                              events=True, flags=True, own=True))
 
 
 def _gate(spec, viol=None):
@@ -186,6 +186,11 @@ def exec_accept(case):
 def _check_reject(spec, viol, out):
     ok, detail = _gate(spec, viol)
     out.label('viol-' + viol['kind'])
+    pi = viol.get('pkg', spec['algs'][viol.get('alg', 0)]['pkg'])
+    if (spec.get('ignore_flag') or [None] * (pi + 1))[pi]:
+        out.label('violation-in-package-that-says-ignore-false')
+    if spec.get('own') and spec['own'][pi]:
+        out.label('violation-in-package-with-own-factory')
     if viol.get('alg', 0) > 0 or viol.get('pos') in ('after', 'before'):
         out.nontrivial = True
     if viol.get('pos') == 'after':
@@ -242,6 +247,59 @@ def exec_rejectall(case):
     return out
 
 
+def _cli(root, base, path_first):
+    env = dict(os.environ)
+    env['PYTHONPATH'] = os.pathsep.join(
+        [env.get('PYTHONPATH', ''), path_first]).strip(os.pathsep)
+    r = subprocess.run(
+        [sys.executable, '-m', 'dawgie.tools.compliant',
+         f'--ae-dir={os.path.join(root, base)}', f'--ae-pkg={base}', '-s'],
+        env=env, capture_output=True, text=True, timeout=300, check=False)
+    return r.returncode, (r.stdout[-300:] + ' ' + r.stderr[-300:])
+
+
+def exec_cli(case):
+    '''the command the submit gate spawns (python -m dawgie.tools.compliant)
+    judges the tree it is pointed at - also when another copy of the same
+    package (the operational one) is importable in the spawning process'''
+    out = core.Outcome()
+    spec = case['spec']
+    vs = engines.violations(spec)
+    ok, _d = _gate(spec)
+    if not ok or not vs:
+        return out  # the accept part reports a rejected compliant package
+    v = vs[case['pick'] % len(vs)]
+    if v['kind'].startswith('moment-') and spec['style'] == 'registry':
+        return out
+    rejected_in_process = not _gate(spec, v)[0]
+    if not rejected_in_process:
+        return out  # the reject part reports it
+    with engines.loaded(spec, scan=False) as eng:
+        other = world.fresh_dir('sub')
+        try:
+            engines.write(spec, other, eng.base, v)
+            for pi, pk in enumerate(spec['pkgs']):
+                if not any(a['pkg'] == pi for a in spec['algs']):
+                    world.rm(os.path.join(other, eng.base, pk))
+            # submission with a violation, compliant operational copy around
+            rc, txt = _cli(other, eng.base, eng.root)
+            out.label('cli-bad-submission-good-copy-importable')
+            out.nontrivial = True
+            if rc == 0:
+                out.fail('reject/cli-accepts-violation@other-copy-importable',
+                         f'{v}: exit 0 although the tree given with --ae-dir '
+                         f'breaks the rule; {txt}')
+            # compliant submission, a non-compliant copy around
+            rc, txt = _cli(eng.root, eng.base, other)
+            out.label('cli-good-submission-bad-copy-importable')
+            if rc != 0:
+                out.fail('accept/cli-rejects-compliant@other-copy-importable',
+                         f'{v} is in the other copy only: exit {rc}; {txt}')
+        finally:
+            world.rm(other)
+    return out
+
+
 _accept = st.fixed_dictionaries({'spec': _spec(),
                                  'cli': st.sampled_from([0] * 39 + [1])})
 _reject = st.fixed_dictionaries({
@@ -262,4 +320,10 @@ def parts(tier):
                   cases=480 if q else 12000, batch=60),
         core.Part('rejectall', exec_rejectall, strategy=_rejectall,
                   cases=16 if q else 600, batch=8),
+        core.Part('cli', exec_cli,
+                  strategy=st.fixed_dictionaries({
+                      'spec': engines.specs(max_algs=3, max_pkgs=2,
+                                            events=True),
+                      'pick': st.integers(0, 5000)}),
+                  cases=32 if q else 800, batch=8),
     ]
